@@ -97,6 +97,48 @@ PROPS = {
         "rule": "one case = one shift, one pair, or one text round trip; all non-trivial (single-point recurrences of every notation included)",
         "assumptions": TRUST,
     },
+    "C15": {
+        "technique": "TLA+ state machine Lib.tla (mode + memo cache, invariant ModeDetermines) model-checked with TLC incl. 10 sensitivity twins; "
+                     "TLC-generated histories replayed into one live process; TLC trace validation under the tracked mode",
+        "level_text": "Lib.tla models the process-wide mode and the memo tables of the cached helpers; TLC checks that after every history "
+                      "of SetMode/query actions each result equals the fresh single-mode result, and that dropping the mode from any one "
+                      "helper's key is caught (ten twins). Every behaviour TLC explores to the generation depth, plus long seeded random "
+                      "histories that interleave queries, arithmetic, subtraction and conversions, is replayed in one live Python process "
+                      "without clearing caches; the trace spec tracks the mode through SetMode events and judges every event under it.",
+        "drivers": ["c15"],
+        "mc": [{"module": "MC_C15.tla", "cfg": "MC_C15.cfg", "cfg_quick": "MC_C15_quick.cfg"},
+                {"module": "MC_C15.tla", "cfg": "MC_C15_twin1.cfg", "expect_violation": True},
+                {"module": "MC_C15.tla", "cfg": "MC_C15_twin2.cfg", "expect_violation": True},
+                {"module": "MC_C15.tla", "cfg": "MC_C15_twin3.cfg", "expect_violation": True},
+                {"module": "MC_C15.tla", "cfg": "MC_C15_twin4.cfg", "expect_violation": True},
+                {"module": "MC_C15.tla", "cfg": "MC_C15_twin5.cfg", "expect_violation": True},
+                {"module": "MC_C15.tla", "cfg": "MC_C15_twin6.cfg", "expect_violation": True},
+                {"module": "MC_C15.tla", "cfg": "MC_C15_twin7.cfg", "expect_violation": True},
+                {"module": "MC_C15.tla", "cfg": "MC_C15_twin8.cfg", "expect_violation": True},
+                {"module": "MC_C15.tla", "cfg": "MC_C15_twin9.cfg", "expect_violation": True},
+                {"module": "MC_C15.tla", "cfg": "MC_C15_twin10.cfg", "expect_violation": True},],
+        "expect_ops": ["SetMode", "CalQ", "Add", "SubTP", "Conv"],
+        "rule": "one case = one history (TLC-generated: depth 3-4 over 7 spellings + 4 probes; random: 150-400 steps); a history is "
+                "non-trivial by construction (mode-sensitive probes on recurring years)",
+        "exhaustive_part": {"quick": "all 1331 depth-3 behaviours of Lib.tla over 7 spellings + 4 probes", "thorough": "all depth-3 and depth-4 behaviours (15 972)"},
+        "assumptions": TRUST,
+    },
+    "C16": {
+        "technique": "TLA+ typed value-pool state machine (MC_C16.tla, action properties Immutable/AppendOnly) model-checked with TLC; its "
+                     "behaviours (exhaustive depth 2 + simulated depth 14) replayed on concrete pools; TLC trace validation of per-slot digests after every step",
+        "level_text": "MC_C16.tla lists every public operation with its operand and result types over a pool of 2 points, 2 durations, 1 zone and "
+                      "2 recurrences; TLC checks the design is append-only and emits every operation sequence to depth 2 plus long simulated ones. "
+                      "Each is run on concrete boundary values; after every step the harness re-snapshots every slot (str, every stored field "
+                      "recursively, hash) and the trace spec requires every earlier digest unchanged - so mutation of an operand, of an earlier "
+                      "result, or through shared state is caught at the step where it happens.",
+        "drivers": ["c16"],
+        "mc": [{"module": "MC_C16.tla", "cfg": "MC_C16.cfg", "cfg_quick": "MC_C16_quick.cfg"}],
+        "expect_ops": ["PoolInit", "Op"],
+        "rule": "one case = one operation sequence on one concrete pool; every case is non-trivial (each step re-inspects 7-20 slots)",
+        "exhaustive_part": {"quick": "6000 of the 19 356 depth-2 operation sequences (seeded sample) + 400 simulated depth-14 sequences",
+                            "thorough": "all 19 356 depth-2 sequences x 2 pools + 6000 simulated depth-14 sequences x 3 pools"},
+        "assumptions": TRUST + ["the digest function snap() of harness/drivers/c16.py observes every stored field"],
+    },
     "C03": {
         "technique": "TLA+ calendar definition (Cal.tla) model-checked with TLC (+ Apalache lemmas) and TLC trace validation of every conversion row of the real helpers",
         "level_text": "Cal.tla is the proleptic definition; TLC checks it is self-consistent (inverse pairs, week rule, lengths) on every day "
